@@ -7,6 +7,7 @@
      ansb [sess, data, t]            the library starts checking an incoming packet for answers
      ans  [sess, data, t]            ... and has finished checking it
      drop [req, t]                   request handed to a link object that was already closed (no transmission)
+     died [thread, t]                a library thread (dispatcher, retry timer) ended with an exception
      end  [t, sess, strict]          end of the execution: time, session of the open link (0 = closed);
                                      strict = time only advanced when no thread could run
    Positions in the event list give the global order (n).                                         *)
@@ -73,6 +74,13 @@ EAns == /\ Ev.e = "ans"
 EDrop == /\ Ev.e = "drop"
          /\ UNCHANGED <<reqs, reqsTx, wire, ans, bad, badAt>>
 
+\* a library thread that died with an exception: incoming packets are no longer checked (dispatcher)
+\* or the request is no longer retried (timer) -- "retransmitted until a matching packet is received,
+\* and not after that" cannot hold from here on
+EDied == /\ Ev.e = "died"
+         /\ Fail("LibraryThreadDied")
+         /\ UNCHANGED <<reqs, reqsTx, wire, ans>>
+
 \* last transmission time of request r (0 if none)
 LastTx(r) == LET c == {i \in DOMAIN wire : wire[i].req = r} IN
              IF c = {} THEN 0 ELSE wire[CHOOSE i \in c : \A j \in c : j <= i].t
@@ -90,7 +98,7 @@ EEnd == /\ Ev.e = "end"
         /\ UNCHANGED <<reqs, reqsTx, wire, ans>>
 
 Step == /\ l <= Len(T.ev) /\ l' = l + 1 /\ UNCHANGED tid
-        /\ (ESend \/ ETx \/ EAnsB \/ EAns \/ EDrop \/ EEnd)
+        /\ (ESend \/ ETx \/ EAnsB \/ EAns \/ EDrop \/ EDied \/ EEnd)
 Finish == /\ l = Len(T.ev) + 1 /\ l' = l + 1
           /\ PrintT(<<"VERDICT", T.id, bad, badAt, TRUE, 0>>)
           /\ UNCHANGED <<tid, reqs, reqsTx, wire, ans, bad, badAt>>
